@@ -40,7 +40,12 @@ def run(ctx):
                 "drv": [("lease", "lease", 120, 70, dict(churn_every=60))]}
         n0, n1, g, rounds = 10, 3, 4, 12
     else:
-        plan = {"mc": [("excl", c, PROPS, dict(ids=3, family=("lease", "leasebatch", "deqvar", "operator"), horizon=30, maxep=2, maxins=3, timeout=3000))],
+        # measured (8 workers, busy machine): 2 ids / all families / 3 epochs 111k distinct states in 56 s; 3 ids / one epoch with
+        # lease+operator 403k in 92 s, with lease+leasebatch 254k in 100 s; 3 ids / 2 epochs / all families did not finish in 50 min
+        all4 = ("lease", "leasebatch", "deqvar", "operator")
+        plan = {"mc": [("excl", c, PROPS, dict(family=all4, horizon=30, maxep=3, maxins=2, ticks=(10, 30), timeout=1500)),
+                       ("excl3_oper", c, PROPS, dict(ids=3, family=("lease", "operator"), horizon=20, maxep=1, maxins=3, ticks=(10, 30), timeout=1500)),
+                       ("excl3_batch", c, PROPS, dict(ids=3, family=("lease", "leasebatch"), horizon=20, maxep=1, maxins=3, ticks=(10, 30), timeout=1500))],
                 "gen": [("excl", c, dict(family=("lease", "operator"), horizon=20, maxep=2, maxins=2, pick="insertion"), 1)],
                 "drv": [("lease", "lease", 3000, 90, {})]}
         n0, n1, g, rounds = 150, 40, 6, 16
